@@ -388,6 +388,10 @@ class Exec(HeapMixin, StreamMixin, Engine):
             a, b = as_bool(a), as_bool(b)
             return z3.And(a, b) if op == "&&" else z3.Or(a, b)
         if op == "+":
+            if isinstance(a, Opaque):
+                return a
+            if isinstance(b, Opaque):
+                return b
             if isinstance(a, Ptr):
                 return self.ptr_add(st, a, b, n)
             return self.ptr_add(st, b, a, n)
